@@ -4,7 +4,40 @@ package cache
 
 import "github.com/thought-machine/please/src/core"
 
-func init() { vpRegister("vpH_C14_clean", vpH_C14_clean) }
+func init() {
+	vpRegister("vpH_C14_clean", vpH_C14_clean)
+	vpRegister("vpH_C14_compressed", vpH_C14_compressed)
+}
+
+// vpH_C14_compressed: the compressed layout (tar/gzip interpreted): an entry
+// that this process merely retrieved is protected from cleaning like one it
+// stored; an entry nobody touched goes.
+func vpH_C14_compressed() {
+	vpFSReset()
+	vpMkDir("cache")
+	t := core.NewBuildTarget(core.BuildLabel{PackageName: "p", Name: "t"})
+	outs := []string{"o1"}
+	vpMkFile(vpOutDir+"/o1", "hello", 0o644)
+	// an earlier process stored two artifacts
+	earlier := &dirCache{Dir: "cache", Compress: true, added: map[string]uint64{}}
+	earlier.Store(t, vpKey, outs)
+	earlier.Store(t, vpKey2, outs)
+	// this process uses the first one: by retrieving it or by storing it again
+	c := &dirCache{Dir: "cache", Compress: true, added: map[string]uint64{}}
+	vpWipeOutputs()
+	if vpNondetBool("used-by-retrieve") {
+		vpAssert("retrieve-hits", c.Retrieve(t, vpKey, outs))
+	} else {
+		vpMkFile(vpOutDir+"/o1", "hello", 0o644)
+		c.Store(t, vpKey, outs)
+	}
+	used := c.getFullPath(t, vpKey, "", "")
+	other := c.getFullPath(t, vpKey2, "", "")
+	before := vpTreeString(used)
+	c.clean(0, 0)
+	vpAssert("entry-used-by-this-process-kept-whole", vpTreeString(used) == before && before != "<absent>")
+	vpAssert("unused-entry-evicted", vpTreeString(other) == "<absent>")
+}
 
 var vpEntryNames = []string{
 	"AAAAAAAAAAAAAAAAAAAAAAAAAAA=", // sha1 key
@@ -46,6 +79,24 @@ func vpH_C14_clean() {
 			}
 		}
 	}
+	// an interrupted store may have left a non-empty temporary "<key>=" next to an
+	// entry. It is an entry of its own for clean() (recently used, so it is evicted
+	// last), and while it exists renaming "<key>" away fails: that entry cannot be
+	// evicted and must not be counted as freed.
+	stuck := -1
+	if vpNondetBool("stale-temporary-next-to-an-entry") {
+		stuck = vpChoice("which-entry", 2) // one of the two real keys
+		vpAssume(stuck < n && !marked[stuck]) // (marking an entry also marks its temporary)
+		tmp := paths[stuck] + "="
+		vpMkFile(tmp+"/left", "x", 0o644)
+		_, _, node, _ := vpWalkTo(tmp, false, 0)
+		node.atime = 900000
+		paths = append(paths, tmp)
+		sizes = append(sizes, 1)
+		marked = append(marked, false)
+		trees = append(trees, vpTreeString(tmp))
+		total++
+	}
 	// something that only looks like an entry must never be touched
 	const lookalike = "cache/p/t/DDDDDDDDDDDDDDDDDDDDDDDDDDDD"
 	vpMkFile(lookalike+"/out", "zz", 0o644)
@@ -57,7 +108,7 @@ func vpH_C14_clean() {
 	got := c.clean(uint64(high), uint64(low))
 
 	remaining, unmarkedLeft := 0, 0
-	for i := 0; i < n; i++ {
+	for i := 0; i < len(paths); i++ {
 		now := vpTreeString(paths[i])
 		gone := now == "<absent>"
 		vpAssert("entry-whole-or-gone", gone || now == trees[i])
@@ -66,12 +117,14 @@ func vpH_C14_clean() {
 		}
 		if !gone {
 			remaining += sizes[i]
-			if !marked[i] {
+			if !marked[i] && i != stuck {
 				unmarkedLeft++
 			}
 		}
-		_, _, tmp, _ := vpWalkTo(paths[i]+"=", false, 0)
-		vpAssert("no-renamed-leftover", tmp == nil)
+		if i != stuck {
+			_, _, tmp, _ := vpWalkTo(paths[i]+"=", false, 0)
+			vpAssert("no-renamed-leftover", tmp == nil)
+		}
 	}
 	vpAssert("lookalike-untouched", vpTreeString(lookalike) == lookTree)
 	vpAssert("reported-total-is-what-remains", got == uint64(remaining))
